@@ -703,6 +703,8 @@ type c11D struct {
 var c11Directed = []c11D{
 	// a nested block of a function literal first reads an outer variable and then declares its own variable of that name
 	{"a := 1\nf := func() {\n  if true {\n    b := a + 1\n    a := b * 2\n    return a\n  }\n  return 0\n}\nr := f()\nq := a\ng := func(n) { for i := 0; i < n; i++ { t := q + i; q := t; if q > 2 { return q } }; return -1 }\ns := g(3)\n", []string{"a", "r", "q", "s"}},
+	// a block-local variable initialised from the outer variable of the same name
+	{"x := 3\ny := 0\nif true {\n  x := x + 1\n  y = x\n}\nfor i := 0; i < 2; i++ {\n  x := x * 2\n  y += x\n}\nlimit := 0\nz := func() { limit := limit ? limit : 100; return limit }()\n", []string{"x", "y", "z"}},
 	// variables named like builtin functions (declared before any use of the name)
 	{"len := 5\nout := len + 1\ncopy := func(x) { return x + len }\nc := copy(3)\ng := func() { return copy(4) + len }\nd := g()\n", []string{"len", "out", "c", "d"}},
 	{"format := \"f\"\nif true {\n  string := format + \"s\"\n  format = string\n}\nis_int := func(v) { return format + v }\nr := is_int(\"!\")\n", []string{"format", "r"}},
